@@ -139,7 +139,8 @@ OpEmit(o, enc, cx) ==
             ELSE OkF(FRaw(<<IF enc.version >= 5 THEN 168 ELSE 247>> \o ULeb(cx.unitoff[o.e])))
       [] o.op = "call" -> IF cx.unitoff[o.e] = <<>> THEN ErrF("UnsupportedExpressionForwardReference")
             ELSE LET d == UData(cx.unitoff[o.e], 4) IN IF d.err # "" THEN d ELSE OkF(FRaw(<<153>>) \o d.fs)
-      [] o.op = "call_ref" -> IF cx.infooff[o.u][o.e] = <<>> THEN ErrF("InvalidReference")
+      [] o.op = "call_ref" -> IF cx.defer THEN OkF(FRaw(<<154>>) \o FInt(Zero(8), enc.word))
+            ELSE IF cx.infooff[o.u][o.e] = <<>> THEN ErrF("InvalidReference")
             ELSE LET d == UData(cx.infooff[o.u][o.e], enc.word) IN IF d.err # "" THEN d ELSE OkF(FRaw(<<154>>) \o d.fs)
 RECURSIVE OpsEmit(_, _, _)
 OpsEmit(os, enc, cx) ==
@@ -221,6 +222,7 @@ Emit(val, enc, cx) ==
             LET size == IF enc.version = 2 THEN enc.asz ELSE enc.word
                 o == cx.infooff[val.u][val.e] IN
             IF ~WordOk(size) THEN ErrF("UnsupportedWordSize")
+            ELSE IF cx.defer THEN OkF(FInt(Zero(8), size))     \* the placeholder; the fix-up comes after all units
             ELSE IF o = <<>> THEN ErrF("InvalidReference") ELSE UData(o, size)
       [] k \in {"DebugInfoRefSup", "DebugStrRefSup", "DebugMacinfoRef", "DebugMacroRef"} -> UData(val.v, enc.word)
       [] k = "LineProgramRef" -> IF cx.lineprog THEN OkF(FHole(enc.word)) ELSE ErrF("InvalidAttributeValue")
@@ -405,7 +407,7 @@ WriteResult(D, be) ==
         lstrtab == Distinct(D.lstrs, <<>>)
         pos == [u \in 1..nu |-> [e \in 1..Len(D.units[u].ents) |->
                    LET k == IndexOf(Ls[u].order, e, 1) IN <<u, k>>]]
-        cxOf(u) == [unitoff |-> [e \in 1..D.units[u].reserved |->
+        cxOf(u, defer) == [defer |-> defer, unitoff |-> [e \in 1..D.units[u].reserved |->
                                    IF e <= Len(D.units[u].ents) /\ Ls[u].offs[e] # 0 THEN Nat8(Ls[u].offs[e]) ELSE <<>>],
                     infooff |-> [v \in 1..nu |-> [e \in 1..D.units[v].reserved |->
                                    IF e <= Len(D.units[v].ents) /\ Ls[v].offs[e] # 0 THEN Nat8(starts[v] + Ls[v].offs[e]) ELSE <<>>]],
@@ -415,13 +417,20 @@ WriteResult(D, be) ==
         body == [u \in 1..nu |->
                    IF ~VersionOk(D.units[u].enc) THEN ErrF("UnsupportedVersion")
                    ELSE IF Ls[u].err # "" THEN ErrF(Ls[u].err)
-                   ELSE EmitEntry(Reordered(D.units[u]), 1, Ls[u], cxOf(u))]
-        firstErr == IF \E u \in 1..nu : body[u].err # ""
+                   ELSE EmitEntry(Reordered(D.units[u]), 1, Ls[u], cxOf(u, FALSE))]
+        (* errors raised while the units are written, before the cross-unit fix-ups *)
+        early == [u \in 1..nu |->
+                   IF ~VersionOk(D.units[u].enc) THEN ErrF("UnsupportedVersion")
+                   ELSE IF Ls[u].err # "" THEN ErrF(Ls[u].err)
+                   ELSE EmitEntry(Reordered(D.units[u]), 1, Ls[u], cxOf(u, TRUE))]
+        firstErr == IF \E u \in 1..nu : early[u].err # ""
+                    THEN early[CHOOSE u \in 1..nu : early[u].err # "" /\ \A v \in 1..(u - 1) : early[v].err = ""].err
+                    ELSE IF \E u \in 1..nu : body[u].err # ""
                     THEN body[CHOOSE u \in 1..nu : body[u].err # "" /\ \A v \in 1..(u - 1) : body[v].err = ""].err
                     ELSE ""
     IN IF firstErr # "" THEN [ok |-> FALSE, err |-> firstErr]
        ELSE [ok |-> TRUE,
-             units |-> [u \in 1..nu |-> ExpUnit(Reordered(D.units[u]), Ls[u], pos, u, starts[u], cxOf(u), be)],
+             units |-> [u \in 1..nu |-> ExpUnit(Reordered(D.units[u]), Ls[u], pos, u, starts[u], cxOf(u, FALSE), be)],
              info |-> AllBytes(D, Ls, body, be, 1),
              str |-> CatStrings(strtab, 1)]
 
